@@ -76,6 +76,9 @@ class Check:
             with open(KNOWN) as fh:
                 known = json.load(fh)
         open_keys = {f["key"]: f for f in known.get("findings", []) if f.get("status") == "open"}
+        global EVID
+        if os.environ.get("VERIF_NO_EVIDENCE"):
+            EVID = os.path.join(VERIF, ".cache", "scratch-evidence")
         os.makedirs(os.path.join(EVID, "violations"), exist_ok=True)
         # stale replay files of this property
         for f in os.listdir(os.path.join(EVID, "violations")):
@@ -90,7 +93,7 @@ class Check:
                 lines.append("KNOWN-FINDING: property=%s %s [%s] %s" % (self.pid, v["msg"], v["key"], v["where"] or ""))
                 continue
             n_viol += 1
-            rp = os.path.join("evidence", "violations", "%s-%d.json" % (self.pid, n_viol))
+            rp = os.path.join(os.path.relpath(EVID, VERIF), "violations", "%s-%d.json" % (self.pid, n_viol))
             with open(os.path.join(VERIF, rp), "w") as fh:
                 json.dump({"property": self.pid, "key": v["key"], "rule": v["rule"], "message": v["msg"], "where": v["where"],
                            "extra": v["extra"], "replay": "./check %s --tier %s" % (self.pid, self.tier)}, fh, indent=1, default=str)
@@ -125,8 +128,9 @@ class Check:
         if self.selftest_failures:
             ev["coverage"]["selftest_failures"] = self.selftest_failures
         os.makedirs(EVID, exist_ok=True)
-        with open(os.path.join(EVID, self.pid + ".json"), "w") as fh:
-            json.dump(ev, fh, indent=1, default=str)
+        if not os.environ.get("VERIF_NO_EVIDENCE"):
+            with open(os.path.join(EVID, self.pid + ".json"), "w") as fh:
+                json.dump(ev, fh, indent=1, default=str)
         print("%s [%s]: %d obligations, %d discharged, %d violation(s), %d known finding(s), %.1fs" % (
             self.pid, self.tier, nob, ndis, n_viol, n_known, time.time() - self.t0))
         for l in lines:
